@@ -177,8 +177,8 @@ func (p *Prog) ModuleFuncs(keep func(rel string) bool) []*ssa.Function {
 		if pk == nil || !strings.HasPrefix(pk.Path(), ModulePath) {
 			continue
 		}
-		if f.Blocks == nil {
-			continue
+		if f.Blocks == nil || f.Synthetic != "" {
+			continue // promoted-method wrappers, bound-method thunks: they only delegate
 		}
 		rel := strings.TrimPrefix(strings.TrimPrefix(pk.Path(), ModulePath), "/")
 		if keep != nil && !keep(rel) {
